@@ -28,4 +28,29 @@ def c16(tier):
     )
 
 
-PROPS = {"C06": c06, "C16": c16}
+def c19(tier):
+    ml = 2 if tier == "quick" else 3
+    depths = [-1, 0, 1] if tier == "quick" else [-1, 0, 1, 2]
+    o = {"hash_order": "fixed"}
+    jobs = []
+    for a in depths:
+        for b in depths:
+            jobs.append(Job("h_c19::order_pair", (a, b, ml), o, budget_s=1500, validate=25))
+    tri = [(0, 0, 0, ml), (1, 1, 0, 1), (1, -2, 0, 1), (-2, -2, -2, 1), (1, 1, 1, 1)]
+    if tier != "quick":
+        tri += [(-1, -1, -1, 1), (2, 1, 0, 1), (2, 2, 1, 1), (2, -2, 1, 1), (1, 1, 1, 2)]
+    for t in tri:
+        jobs.append(Job("h_c19::order_triple", t, o, budget_s=1500, validate=25))
+    jobs.append(Job("h_c19::print_parse", (1 if tier == "quick" else 2, 2), o, budget_s=1500, validate=25))
+    jobs.append(Job("h_c19::digest_pure", (), o, budget_s=600, validate=25))
+    return dict(
+        jobs=jobs,
+        bounds={"derivation_depth": "0..%d (creation + new_updated/new_deleted/new_resolved/loader construction) and parsed revisions with index in [2, 2^32-2]" % max(depths),
+                "digest": "symbolic [0-9a-z]{1,%d} incl. the reserved d/r/e" % ml, "tail": "7 hex chars (symbolic)", "triples": [list(t) for t in tri]},
+        assumptions=["digest values are lower-case alphanumeric (real digests are hex or d/r/e); objects using the reserved '#' key are outside the claim",
+                     "index = u32::MAX is outside the claim (parent.index + 1 overflows by design of the constructors)"],
+        note="revision.rs executed from MIR (cmp/eq/hash/fmt/from/new*/is_*), utils::digest_object/digest_string",
+    )
+
+
+PROPS = {"C06": c06, "C16": c16, "C19": c19}
